@@ -78,8 +78,10 @@ theorem mkIndex_ok (fl : α → Int) (bb : α × α × α × α) (res : Option (
     ix.xmin = xmin ∧ ix.xmax = xmax ∧ ix.ymin = ymin ∧ ix.ymax = ymax ∧ ix.csize ≠ 0 ∧ ix.lsize ≠ 0 ∧
     ix.dX = ax / ((ix.csize : Int) : α) ∧ ix.dY = ay / ((ix.lsize : Int) : α) ∧
     ix.grid = List.replicate ix.csize.toNat (List.replicate ix.lsize.toNat []) ∧ ix.inv = [] ∧
-    ∃ rx ry : α, rx ≠ 0 ∧ ry ≠ 0 ∧ ix.csize = pyInt fl (ax / rx) ∧ ix.lsize = pyInt fl (ay / ry) ∧
-      (res = none → rx = max ax ay / ((100 : Int) : α) ∧ ry = max ax ay / ((100 : Int) : α)) ∧ (∀ r, res = some r → rx = r.1 ∧ ry = r.2) := by
+    (res = none → max ax ay / ((100 : Int) : α) ≠ 0 ∧
+      ix.csize = max 1 (pyInt fl (ax / (max ax ay / ((100 : Int) : α)))) ∧
+      ix.lsize = max 1 (pyInt fl (ay / (max ax ay / ((100 : Int) : α))))) ∧
+    (∀ r, res = some r → r.1 ≠ 0 ∧ r.2 ≠ 0 ∧ ix.csize = pyInt fl (ax / r.1) ∧ ix.lsize = pyInt fl (ay / r.2)) := by
   intro xmin xmax ymin ymax ax ay
   unfold mkIndex at h
   simp only at h
@@ -94,16 +96,14 @@ theorem mkIndex_ok (fl : α → Int) (bb : α × α × α × α) (res : Option (
       simp only [Except.ok.injEq] at h
       subst h
       simp only [beq_iff_eq] at c1 c2
-      refine ⟨rfl, rfl, rfl, rfl, c1, c2, rfl, rfl, rfl, rfl, max ax ay / ((100 : Int) : α), max ax ay / ((100 : Int) : α), ?_, ?_, ?_, ?_, ?_, ?_⟩
-      · have := (isZero_false_iff _).mp hz'
-        rw [pyMax_eq] at this
-        simpa [xmin, xmax, ymin, ymax, ax, ay] using this
-      · have := (isZero_false_iff _).mp hz'
-        rw [pyMax_eq] at this
-        simpa [xmin, xmax, ymin, ymax, ax, ay] using this
-      · simp [pyMax_eq, xmin, xmax, ymin, ymax, ax, ay]
-      · simp [pyMax_eq, xmin, xmax, ymin, ymax, ax, ay]
-      · intro _; exact ⟨rfl, rfl⟩
+      refine ⟨rfl, rfl, rfl, rfl, c1, c2, rfl, rfl, rfl, rfl, ?_, ?_⟩
+      · intro _
+        refine ⟨?_, ?_, ?_⟩
+        · have := (isZero_false_iff _).mp hz'
+          rw [pyMax_eq] at this
+          simpa [xmin, xmax, ymin, ymax, ax, ay] using this
+        · simp [pyMax_eq, xmin, xmax, ymin, ymax, ax, ay]
+        · simp [pyMax_eq, xmin, xmax, ymin, ymax, ax, ay]
       · intro r hr; cases hr
   | some r =>
     simp only at h
@@ -118,10 +118,10 @@ theorem mkIndex_ok (fl : α → Int) (bb : α × α × α × α) (res : Option (
     simp only [Except.ok.injEq] at h
     subst h
     simp only [beq_iff_eq] at c1 c2
-    refine ⟨rfl, rfl, rfl, rfl, c1, c2, rfl, rfl, rfl, rfl, r.1, r.2, (isZero_false_iff _).mp hz1',
-      (isZero_false_iff _).mp hz2', rfl, rfl, ?_, ?_⟩
+    refine ⟨rfl, rfl, rfl, rfl, c1, c2, rfl, rfl, rfl, rfl, ?_, ?_⟩
     · intro hr; cases hr
-    · intro r' hr; cases hr; exact ⟨rfl, rfl⟩
+    · intro r' hr; cases hr
+      exact ⟨(isZero_false_iff _).mp hz1', (isZero_false_iff _).mp hz2', rfl, rfl⟩
 
 theorem mkIndex_wf (fl : α → Int) (bb : α × α × α × α) (res : Option (α × α)) (m : α) (ix : Index α)
     (h : mkIndex fl bb res m = .ok ix) : WF ix := by
@@ -155,34 +155,91 @@ theorem axis_pos {fl : α → Int} (hf : IsFloor fl) (a r : α) (ha : 0 ≤ a) (
     rw [le_div_iff₀ hr] at h2; linarith
   exact div_pos (lt_of_lt_of_le hr h3) hc
 
-/-- positivity of the grid dimensions and of the cell size, for a non-degenerate constructor call -/
+/-- positivity of the grid dimensions, for a non-degenerate constructor call: with the default resolution both
+are at least 1 (fix 9a44198), with an explicit positive cell size a non-zero count is positive -/
 theorem mkIndex_pos {fl : α → Int} (hf : IsFloor fl) (bb : α × α × α × α) (res : Option (α × α)) (m : α) (ix : Index α)
     (h : mkIndex fl bb res m = .ok ix) (hm : 0 ≤ m) (hbx : bb.1 ≤ bb.2.1) (hby : bb.2.2.1 ≤ bb.2.2.2)
     (hres : ∀ r, res = some r → 0 < r.1 ∧ 0 < r.2) :
-    0 < ix.csize ∧ 0 < ix.lsize ∧ 0 < ix.dX ∧ 0 < ix.dY := by
-  obtain ⟨_, _, _, _, c1, c2, e7, e8, _, _, rx, ry, hrx, hry, ecs, els, hnone, hsome⟩ := mkIndex_ok fl bb res m ix h
+    0 < ix.csize ∧ 0 < ix.lsize := by
+  obtain ⟨_, _, _, _, c1, c2, _, _, _, _, hnone, hsome⟩ := mkIndex_ok fl bb res m ix h
   have hax : 0 ≤ (bb.2.1 + m * (bb.2.1 - bb.1)) - (bb.1 - m * (bb.2.1 - bb.1)) := by
     have := mul_nonneg hm (sub_nonneg.mpr hbx); linarith
   have hay : 0 ≤ (bb.2.2.2 + m * (bb.2.2.2 - bb.2.2.1)) - (bb.2.2.1 - m * (bb.2.2.2 - bb.2.2.1)) := by
     have := mul_nonneg hm (sub_nonneg.mpr hby); linarith
-  have hpos : 0 < rx ∧ 0 < ry := by
-    cases res with
-    | none =>
-      obtain ⟨r1, r2⟩ := hnone rfl
-      have hmx := le_trans hax (le_max_left _
-        ((bb.2.2.2 + m * (bb.2.2.2 - bb.2.2.1)) - (bb.2.2.1 - m * (bb.2.2.2 - bb.2.2.1))))
-      have : 0 ≤ rx := by rw [r1]; exact div_nonneg hmx (by norm_num)
-      have h1 : 0 < rx := lt_of_le_of_ne this (Ne.symm hrx)
-      have : 0 ≤ ry := by rw [r2]; exact div_nonneg hmx (by norm_num)
-      exact ⟨h1, lt_of_le_of_ne this (Ne.symm hry)⟩
-    | some r =>
-      obtain ⟨r1, r2⟩ := hsome r rfl
-      rw [r1, r2]; exact hres r rfl
-  rw [ecs] at c1 e7
-  rw [els] at c2 e8
-  obtain ⟨p1, p2⟩ := axis_pos hf _ rx hax hpos.1 c1
-  obtain ⟨q1, q2⟩ := axis_pos hf _ ry hay hpos.2 c2
-  exact ⟨by rw [ecs]; exact p1, by rw [els]; exact q1, by rw [e7]; exact p2, by rw [e8]; exact q2⟩
+  cases res with
+  | none =>
+    obtain ⟨_, ecs, els⟩ := hnone rfl
+    rw [ecs, els]
+    exact ⟨lt_of_lt_of_le Int.one_pos (le_max_left _ _), lt_of_lt_of_le Int.one_pos (le_max_left _ _)⟩
+  | some r =>
+    obtain ⟨_, _, ecs, els⟩ := hsome r rfl
+    obtain ⟨hr1, hr2⟩ := hres r rfl
+    rw [ecs] at c1
+    rw [els] at c2
+    obtain ⟨p1, _⟩ := axis_pos hf _ r.1 hax hr1 c1
+    obtain ⟨q1, _⟩ := axis_pos hf _ r.2 hay hr2 c2
+    exact ⟨by rw [ecs]; exact p1, by rw [els]; exact q1⟩
+
+omit [IsStrictOrderedRing α] in
+theorem isZero_true_iff (x : α) : isZero x = true ↔ x = 0 := by
+  constructor
+  · intro h
+    by_contra hx
+    rw [(isZero_false_iff x).mpr hx] at h
+    cases h
+  · intro h
+    cases hz : isZero x with
+    | true => rfl
+    | false => exact absurd h ((isZero_false_iff x).mp hz)
+
+/-- the default resolution after fix 9a44198: for `margin ≥ 0` and a bounding box that is not a single point,
+`__init__` (up to the registration loop) does not raise, the grid has at least one column and one row, and a cell
+side is positive on every axis along which the bounding box has a positive length. (Before the fix an extent
+more than 100 times wider than tall, or the converse, raised ZeroDivisionError.) -/
+theorem mkIndex_default (fl : α → Int) (bb : α × α × α × α) (m : α) (hm : 0 ≤ m)
+    (hbx : bb.1 ≤ bb.2.1) (hby : bb.2.2.1 ≤ bb.2.2.2) (hne : bb.1 < bb.2.1 ∨ bb.2.2.1 < bb.2.2.2) :
+    ∃ ix, mkIndex fl bb none m = .ok ix ∧ 1 ≤ ix.csize ∧ 1 ≤ ix.lsize ∧
+      (bb.1 < bb.2.1 → 0 < ix.dX) ∧ (bb.2.2.1 < bb.2.2.2 → 0 < ix.dY) := by
+  have hax : 0 ≤ (bb.2.1 + m * (bb.2.1 - bb.1)) - (bb.1 - m * (bb.2.1 - bb.1)) := by
+    have := mul_nonneg hm (sub_nonneg.mpr hbx); linarith
+  have hay : 0 ≤ (bb.2.2.2 + m * (bb.2.2.2 - bb.2.2.1)) - (bb.2.2.1 - m * (bb.2.2.2 - bb.2.2.1)) := by
+    have := mul_nonneg hm (sub_nonneg.mpr hby); linarith
+  have hax' : bb.1 < bb.2.1 → 0 < (bb.2.1 + m * (bb.2.1 - bb.1)) - (bb.1 - m * (bb.2.1 - bb.1)) := by
+    intro h; have := mul_nonneg hm (sub_nonneg.mpr hbx); linarith
+  have hay' : bb.2.2.1 < bb.2.2.2 → 0 < (bb.2.2.2 + m * (bb.2.2.2 - bb.2.2.1)) - (bb.2.2.1 - m * (bb.2.2.2 - bb.2.2.1)) := by
+    intro h; have := mul_nonneg hm (sub_nonneg.mpr hby); linarith
+  have hmax : 0 < max ((bb.2.1 + m * (bb.2.1 - bb.1)) - (bb.1 - m * (bb.2.1 - bb.1)))
+      ((bb.2.2.2 + m * (bb.2.2.2 - bb.2.2.1)) - (bb.2.2.1 - m * (bb.2.2.2 - bb.2.2.1))) := by
+    rcases hne with h | h
+    · exact lt_of_lt_of_le (hax' h) (le_max_left _ _)
+    · exact lt_of_lt_of_le (hay' h) (le_max_right _ _)
+  cases h : mkIndex fl bb none m with
+  | error e =>
+    exfalso
+    unfold mkIndex at h
+    simp only at h
+    split_ifs at h with hz
+    · rw [isZero_true_iff, pyMax_eq] at hz
+      have h100 : (((100 : Int) : α)) ≠ 0 := by norm_num
+      rcases div_eq_zero_iff.mp hz with h0 | h0
+      · exact absurd h0 (ne_of_gt hmax)
+      · exact h100 h0
+    · simp only at h
+      split_ifs at h with c1 c2
+      · simp only [beq_iff_eq] at c1; omega
+      · simp only [beq_iff_eq] at c2; omega
+  | ok ix =>
+    obtain ⟨_, _, _, _, _, _, e7, e8, _, _, hnone, _⟩ := mkIndex_ok fl bb none m ix h
+    obtain ⟨_, ecs, els⟩ := hnone rfl
+    have h1 : 1 ≤ ix.csize := by rw [ecs]; exact le_max_left _ _
+    have h2 : 1 ≤ ix.lsize := by rw [els]; exact le_max_left _ _
+    refine ⟨ix, rfl, h1, h2, ?_, ?_⟩
+    · intro hx
+      rw [e7]
+      exact div_pos (hax' hx) (by exact_mod_cast (by omega : 0 < ix.csize))
+    · intro hy
+      rw [e8]
+      exact div_pos (hay' hy) (by exact_mod_cast (by omega : 0 < ix.lsize))
 
 /-- with `margin ≥ 0` every point of the bounding box is inside the extent, so `__getCell` answers -/
 theorem getCell_of_bbox (fl : α → Int) (bb : α × α × α × α) (res : Option (α × α)) (m : α) (ix : Index α)
